@@ -272,10 +272,7 @@ class Bag(Factory, Container):
             else:
                 raise JsonFormatException(json["name"], "Bag.name")
 
-            if json["values"] is None:
-                values = None
-
-            elif json["values"] is None or isinstance(json["values"], list):
+            if isinstance(json["values"], list):
                 values = {}
                 for i, nv in enumerate(json["values"]):
                     if isinstance(nv, dict) and hasKeys(nv.keys(), ["w", "v"]):
@@ -301,13 +298,13 @@ class Bag(Factory, Container):
                     else:
                         raise JsonFormatException(nv, f"Bag.values {i}")
 
-            elif json["values"] is None:
-                values = None
-
             else:
                 raise JsonFormatException(json["values"], "Bag.values")
 
-            if isinstance(json["range"], basestring):
+            if isinstance(json["range"], basestring) and (
+                json["range"] in ("N", "S")
+                or (json["range"][:1] == "N" and json["range"][1:].isdigit() and int(json["range"][1:]) > 0)
+            ):
                 range = json["range"]
             else:
                 raise JsonFormatException(json["range"], "Bag.range")
